@@ -210,10 +210,14 @@ def dba(s, c, mask=None, samples=None, use_c=False, nb_initial_samples=None, **k
             c = get_good_c(s, mask, nb_initial_samples, use_c=use_c, **kwargs)
     t = len(c)
     assoctab = [[] for _ in range(t)]
+    if use_c:
+        # The C library expects C-contiguous buffers
+        c = util_numpy.verify_np_array(c)
     for idx, seq in enumerate(s):
         if mask is not None and not mask[idx]:
             continue
         if use_c:
+            seq = util_numpy.verify_np_array(seq)
             if ndim == 1:
                 m = dtw_cc.warping_path(c, seq, **kwargs)
             else:
